@@ -4,6 +4,7 @@ package main
 // KNOWN-FINDING / UNDECIDED lines.
 
 import (
+	"regexp"
 	"encoding/json"
 	"flag"
 	"fmt"
@@ -39,7 +40,18 @@ type boundedResult struct {
 	wallS  float64
 }
 
+// FallbackSpec: a run of the real code that decides the functions in Covers when their proof
+// can no longer be generated or only proof-structure obligations (loop invariants, hints) fail -
+// i.e. when the code was restructured and the annotations no longer fit. Never run on a tree
+// whose obligations all discharge.
+type FallbackSpec struct {
+	ReplaySpec
+	Covers []string `json:"covers"`
+	Bound  string   `json:"bound"`
+}
+
 type PropConfig struct {
+	Fallbacks   []FallbackSpec `json:"fallbacks"`
 	BoundedRuns []BoundedSpec `json:"bounded_runs"`
 	Replays     []ReplaySpec `json:"replays"`
 	Pkgs        []string     `json:"pkgs"`
@@ -148,6 +160,7 @@ func cmdCheck(args []string) {
 	sort.Strings(keys)
 	var reports []oblReport
 	var undecided []string
+	undecFn := map[string]string{} // undecided reason -> function it concerns ("" = not tied to one)
 	var funcs []map[string]interface{}
 	trusted := map[string]bool{}
 	abstracted := map[string]bool{}
@@ -163,6 +176,7 @@ func cmdCheck(args []string) {
 		res := eng.VerifyFunc(fn, c)
 		if res.Undecided != "" {
 			undecided = append(undecided, k+": "+res.Undecided)
+			undecFn[k+": "+res.Undecided] = k
 		}
 		cp := clauseProps(c)
 		var mine []*Query
@@ -239,7 +253,11 @@ func cmdCheck(args []string) {
 	}
 	for _, c := range claimed {
 		if !have[c] {
-			undecided = append(undecided, "claimed obligation no longer generated: "+c)
+			u := "claimed obligation no longer generated: " + c
+			undecided = append(undecided, u)
+			if i := strings.LastIndex(c, "/"); i > 0 && !strings.HasPrefix(c, "lemma.") && !strings.HasPrefix(c, "frame.") {
+				undecFn[u] = c[:i]
+			}
 		}
 	}
 
@@ -249,9 +267,123 @@ func cmdCheck(args []string) {
 	var samples []interface{}
 	var knownObls []string
 	replayDir := filepath.Join(*verif, "out", "replay", *prop)
+
+	// Restructured code: a function whose only problems are proof-structure obligations (loop
+	// invariants, hints, impl_ clauses, obligations that are no longer generated, annotations that
+	// no longer resolve) is decided by its registered fallback runs of the real code.
+	problems := map[string][]string{} // function -> problem descriptions
+	hard := map[string]bool{}         // function has a failing property-carrying obligation
+	broken := map[string]bool{}       // function has a failing proof-structure obligation: its other failures are not trustworthy
+	for _, o := range allObls {
+		if o.Status == "discharged" || matchKnown(known, *prop, o.Name) != nil {
+			continue
+		}
+		fn := oblFunc[o]
+		problems[fn] = append(problems[fn], o.Name)
+		if strings.HasPrefix(fn, "lemma:") || strings.HasPrefix(fn, "frame:") {
+			hard[fn] = true
+		} else if structuralObligation(o.Name) {
+			broken[fn] = true
+		} else {
+			hard[fn] = true
+		}
+	}
+	for _, u := range undecided {
+		if fn := undecFn[u]; fn != "" {
+			problems[fn] = append(problems[fn], u)
+			broken[fn] = true
+		}
+	}
+	// once the invariants of a function no longer hold, what the executor derives after its loops is
+	// meaningless: the function's remaining failures say nothing; its fallback decides
+	for fn := range broken {
+		if !strings.HasPrefix(fn, "lemma:") && !strings.HasPrefix(fn, "frame:") {
+			hard[fn] = false
+		}
+	}
+	heldByFallback := map[string][]string{} // function -> fallback names that passed
+	var fallbackEv []interface{}
+	fallbackRan := map[string]*boundedResult{}
+	var fns []string
+	for fn := range problems {
+		fns = append(fns, fn)
+	}
+	sort.Strings(fns)
+	for _, fn := range fns {
+		if hard[fn] {
+			continue
+		}
+		var covering []FallbackSpec
+		for _, fb := range cfg.Fallbacks {
+			for _, c := range fb.Covers {
+				if c == fn {
+					covering = append(covering, fb)
+				}
+			}
+		}
+		if len(covering) == 0 {
+			continue
+		}
+		allPass := true
+		var names []string
+		for _, fb := range covering {
+			r := fallbackRan[fb.Name]
+			if r == nil {
+				t := time.Now()
+				out, failed := runReplay(*verif, *repo, fb.ReplaySpec)
+				r = &boundedResult{spec: BoundedSpec{ReplaySpec: fb.ReplaySpec, Bound: fb.Bound}, out: out, failed: failed, wallS: time.Since(t).Seconds()}
+				fallbackRan[fb.Name] = r
+				res := "held on every case within the bound"
+				if failed {
+					res = "failed"
+				} else if !strings.Contains(out, "ok  \t") {
+					res = "could not run"
+				}
+				fallbackEv = append(fallbackEv, map[string]interface{}{"name": fb.Name, "label": "bounded", "covers": fb.Covers, "bound": fb.Bound, "what": fb.What, "result": res, "wall_s": r.wallS})
+				if failed {
+					os.MkdirAll(replayDir, 0o755)
+					file := filepath.Join(replayDir, "fallback."+sanitize(fb.Name)+".json")
+					writeJSON(file, map[string]interface{}{"property": *prop, "fallback": fb, "replayed": true, "failing_input": firstViolationLine(out), "observed": truncate(out, 8000)})
+					fmt.Printf("VIOLATION property=%s replay=%s fallback-run=%s (real code run: test %s fails: %s)\n", *prop, file, fb.Name, fb.Test, firstViolationLine(out))
+				}
+			}
+			if r.failed || !strings.Contains(r.out, "ok  \t") {
+				allPass = false
+			}
+			names = append(names, fb.Name)
+		}
+		if allPass {
+			heldByFallback[fn] = names
+			fmt.Printf("FALLBACK-HELD property=%s function=%s proof annotations no longer fit the code (%d obligations); decided by bounded run(s) of the real code: %s\n", *prop, fn, len(problems[fn]), strings.Join(names, ","))
+		}
+	}
+	fallbackViolations := 0
+	for _, r := range fallbackRan {
+		if r.failed {
+			fallbackViolations++
+		}
+	}
+	// drop the undecided entries of functions held by their fallback
+	{
+		var keep []string
+		for _, u := range undecided {
+			if fn := undecFn[u]; fn != "" && heldByFallback[fn] != nil {
+				continue
+			}
+			keep = append(keep, u)
+		}
+		undecided = keep
+	}
+	violations += fallbackViolations
+
 	for _, o := range allObls {
 		rep := oblReport{Name: o.Name, Status: o.Status, Backend: o.Backend, Ms: o.Ms, Instances: len(o.Instances)}
 		solverMs += o.Ms
+		if o.Status != "discharged" && heldByFallback[oblFunc[o]] != nil {
+			rep.Status = "not-proved; function decided by bounded fallback " + strings.Join(heldByFallback[oblFunc[o]], ",")
+			reports = append(reports, rep)
+			continue
+		}
 		if o.Status != "discharged" {
 			if kf := matchKnown(known, *prop, o.Name); kf != nil {
 				knownLines = append(knownLines, fmt.Sprintf("KNOWN-FINDING: property=%s %s (obligation %s)", *prop, kf.What, o.Name))
@@ -343,6 +475,7 @@ func cmdCheck(args []string) {
 			"functions_under_contract":  funcs,
 			"obligation_results":        reports,
 			"not_decided":               cfg.NotDecided,
+			"fallback_runs":             fallbackEv,
 			"bounded_stand_ins":         boundedEv,
 			"known_finding_obligations": knownObls,
 			"undecided":                 undecided,
@@ -372,6 +505,14 @@ func cmdCheck(args []string) {
 		}
 		os.Exit(3)
 	}
+}
+
+var structuralRe = regexp.MustCompile(`^(loop[$0-9]+\.(entry|preserved|frame)|loop[$0-9]+\.[a-z]+\..*|hint\.|(ensures|check)\.impl_|smoke\.|vacuity\.)`)
+
+// structuralObligation: an obligation that carries the proof, not the property.
+func structuralObligation(name string) bool {
+	short := name[strings.LastIndex(name, "/")+1:]
+	return structuralRe.MatchString(short)
 }
 
 func firstViolationLine(out string) string {
